@@ -76,6 +76,19 @@ func (c *AdapterProxy) ParsePackage(buff []byte) (int, int) {
 	return c.servantProxy.proto.ParsePackage(buff)
 }
 
+// Unsolicited reports whether pkg is a packet the server sent on its own (request id 0: a push
+// or the reconnect notification). Protocols that cannot tell cheaply count every packet as an answer.
+func (c *AdapterProxy) Unsolicited(pkg []byte) bool {
+	p, ok := c.servantProxy.proto.(interface {
+		ResponseID(pkg []byte) (int32, error)
+	})
+	if !ok {
+		return false
+	}
+	id, err := p.ResponseID(pkg)
+	return err == nil && id == 0
+}
+
 // Recv : Recover read channel when closed for timeout
 func (c *AdapterProxy) Recv(pkg []byte) {
 	defer func() {
